@@ -44,7 +44,7 @@ extern "C" {
 #endif
 
 /** Length of ACF Most header. */
-#define AVTP_MOST_HEADER_LEN (4 * AVTP_QUADLET_SIZE)
+#define AVTP_MOST_HEADER_LEN (5 * AVTP_QUADLET_SIZE)
 
 /** ACF Most PDU. */
 typedef struct {
